@@ -85,7 +85,7 @@ static std::string checkTrace(const std::string &file, const std::string &input,
 }
 
 static void checkProgram(xrun::Runner &R, const std::string &src, const std::string &family, uint64_t order, Stats &st, bool verbose = false) {
-  auto S = xrun::searchInputs(src, 1);
+  auto S = xrun::searchInputs(src, 1, 2000000);
   st.add("programs");
   std::vector<xrun::RefCase> use; for (auto &c : S.kept) if (c.oc.out.empty() && c.oc.steps < 60000) use.push_back(c);
   if (use.empty()) { st.add("programs_without_silent_defined_case"); return; }
@@ -137,6 +137,11 @@ int main(int argc, char **argv) {
     std::string nm(L, 'q'); nm[0] = 'p'; if (L > 2) nm[L - 1] = 'z';
     std::string blk; for (int i = 0; i < body; i++) blk += "g := g + " + std::to_string(i % 5 + 1) + "; ";
     extra.push_back({"names", "var g;\nproc " + nm + "(val v) is { " + blk + "g := g + v }\nfunc f" + nm + "(val v) is { " + blk + "return g + v }\nproc main() is { g := 0; " + nm + "(1); g := f" + nm + "(2); " + nm + "(3); 0(g) }\n"});
+  }
+  // procedures whose entry lies beyond byte 65536 / 200000 / 262144 (a never-called filler procedure of the needed size is defined first)
+  for (int fill : {9000, 17000, 52000, 70000}) {
+    std::string blk; blk.reserve(fill * 12); for (int i = 0; i < fill; i++) blk += "g := g + 1; ";
+    extra.push_back({"far-symbols", "var g;\nproc filler() is { " + blk + "skip }\nfunc f(val n) is return n + 1\nproc h(val v) is g := g + v\nproc main() is { g := 0; h(f(1)); h(f(2)); 0(g) }\n"});
   }
   uint64_t total = C.total + extra.size();
   phase(ctx, "corpus " + std::to_string(C.total) + " + " + std::to_string(extra.size()) + " procedure-order programs");
